@@ -15,6 +15,7 @@
 #include "corecel/cont/Range.hh"
 #include "corecel/sys/Device.hh"
 #include "corecel/sys/ThreadId.hh"
+#include "corecel/sys/VerifHook.hh"
 
 #include "Collection.hh"
 #include "CollectionMirror.hh"
@@ -203,6 +204,7 @@ StreamStore<P, S>::state(StreamId stream_id, size_type size)
     auto& state_store = state_vec[stream_id.unchecked_get()];
     if (CELER_UNLIKELY(!state_store))
     {
+        CELER_VERIF_YIELD("StreamStore::state:lazy-alloc");
         state_store = {this->params<MemSpace::host>(), stream_id, size};
     }
 
